@@ -186,6 +186,10 @@ type ControlPlane struct {
 	Fallback func(req *Request)
 	control  map[string]*ServerConn // node ip -> connection that last asked for system.local
 	lastCtl  *ServerConn
+	// holdPeers: number of coming system.peers queries whose answer (computed when the query arrives) is held
+	// back until ReleasePeers; held: the release channels of the answers being held
+	holdPeers int
+	held      []chan struct{}
 }
 
 // NewControlPlane attaches a control plane to every node of the cluster.
@@ -246,12 +250,30 @@ func (cp *ControlPlane) Handle(req *Request) {
 		if !fail && cp.Peers != nil {
 			rows = cp.Peers(node)
 		}
+		var hold chan struct{}
+		if cp.holdPeers > 0 {
+			cp.holdPeers--
+			hold = make(chan struct{})
+			cp.held = append(cp.held, hold)
+		}
 		cp.mu.Unlock()
-		if fail {
-			req.Conn.Reply(req.Stream, OpError, ErrorBody(ErrServer, "memcluster: scripted failure of system.peers", nil))
+		answer := func() {
+			if fail {
+				req.Conn.Reply(req.Stream, OpError, ErrorBody(ErrServer, "memcluster: scripted failure of system.peers", nil))
+				return
+			}
+			req.Conn.Reply(req.Stream, OpResult, SysRowsBody("system", "peers", PeerCols, rows))
+		}
+		if hold != nil {
+			// a slow node: the answer is the table as it was when the query arrived, sent when the script says so
+			// (not on the reader goroutine: the connection keeps reading requests meanwhile)
+			go func() {
+				<-hold
+				answer()
+			}()
 			return
 		}
-		req.Conn.Reply(req.Stream, OpResult, SysRowsBody("system", "peers", PeerCols, rows))
+		answer()
 	case st == "select * from system.peers_v2":
 		cp.mu.Lock()
 		v2 := cp.PeersV2
@@ -287,6 +309,35 @@ func (cp *ControlPlane) other(req *Request) {
 		return
 	}
 	req.Conn.Reply(req.Stream, OpResult, VoidBody())
+}
+
+// HoldNextPeers makes the node hold back its answer to the next n system.peers queries: each answer is computed
+// when its query arrives (the table as it is then) and sent only by ReleasePeers.
+func (cp *ControlPlane) HoldNextPeers(n int) {
+	cp.mu.Lock()
+	cp.holdPeers += n
+	cp.mu.Unlock()
+}
+
+// HeldPeers returns how many system.peers answers are being held right now.
+func (cp *ControlPlane) HeldPeers() int {
+	cp.mu.Lock()
+	defer cp.mu.Unlock()
+	return len(cp.held)
+}
+
+// ReleasePeers sends every held system.peers answer and cancels holds that no query has met yet; it returns the
+// number of answers released.
+func (cp *ControlPlane) ReleasePeers() int {
+	cp.mu.Lock()
+	h := cp.held
+	cp.held = nil
+	cp.holdPeers = 0
+	cp.mu.Unlock()
+	for _, c := range h {
+		close(c)
+	}
+	return len(h)
 }
 
 // Counts returns (system.local queries, system.peers queries) seen so far.
